@@ -188,7 +188,13 @@ func runC20(c *core.Ctx) {
 		// sender side: packets built in memory through the public API (nil payloads and padding-only
 		// packets such as GeneratePadding's exist only here) are cloned into a retransmission buffer
 		if t.Chance(1, 2) && len(c.Viol) == 0 {
-			if pk, ok := spec.build(c); ok {
+			if t.Chance(1, 300) {
+				// extension bodies are not limited to 64 KiB in memory (RFC 3550 counts 32-bit words)
+				spec.profile, spec.legacyProfile = profLegacy, 0x0101
+				spec.exts = []extEl{{0, t.Bytes(4 * (16384 + t.Intn(64)))}}
+				c.Probe("jumbo-extension")
+			}
+			if pk, ok := spec.buildx(c, t.Bool()); ok {
 				if len(spec.payload) == 0 && t.Bool() {
 					pk.Payload = nil
 					c.Probe("sender-nil-payload")
